@@ -63,10 +63,12 @@ def cliValue (maxDriftRate : Option Nat) : Value :=
     | some r => .enumv "Some" [.int .u32 r]
     | none => .enumv "None" [])]
 
-/-- outcome of the `--max-drift-rate` conversion: the ppb value, or `main` returns `Err(String)` -/
-def driftRes (st : St) : Option Nat → Res
-  | some v => .val (.int .u32 v) st
-  | none => .ret (.enumv "Err" [.opaque "String"]) st
+/-- outcome of the `--max-drift-rate` conversion: the ppb value, or `main` returns `Err(String)`.
+    `st` = (local variables, effect log) of the state the evaluation started in; no environment input is
+    consumed (`pos = 0`, the field `St` gained with the extension dictionaries). -/
+def driftRes (st : List (String × Value) × List Value) : Option Nat → Res
+  | some v => .val (.int .u32 v) ⟨st.1, st.2, 0⟩
+  | none => .ret (.enumv "Err" [.opaque "String"]) ⟨st.1, st.2, 0⟩
 
 def Outcome.isStuck : Outcome → Bool
   | .stuck _ => true
